@@ -154,10 +154,16 @@ def walk(g):
                              (str(x), str(src), n, str(g.line(n))))
         return ok
 
+    once = set()
     for l in lines:
         rt = l.record_type
         if rt == "H":
             continue
+        if id(l) in once:
+            # registered under two keys: at most one of them is its current identifier
+            F.append("listed-twice: %s %r is listed more than once by the Gfa" % (_rt(l), str(l)))
+            continue
+        once.add(id(l))
         if l.gfa is not g or not l.is_connected():
             F.append("owner-wrong: %s %r is listed but gfa is %s" % (_rt(l), str(l), "another" if l.gfa is not None else "None"))
         try:
@@ -225,7 +231,7 @@ def oracle(case):
     return []
 
 
-PRIORITY = ["walk-raises", "owner-wrong", "reference-not-a-line", "reaches-disconnected", "reaches-line-not-in-gfa",
+PRIORITY = ["walk-raises", "owner-wrong", "listed-twice", "reference-not-a-line", "reaches-disconnected", "reaches-line-not-in-gfa",
             "not-found-under-identifier", "reference-field-raises", "reference-not-mirrored",
             "backreference-without-reference", "reparse-fails"]
 
